@@ -279,6 +279,12 @@ def run(run: Run):
     run.guard('C13.R4', r4, run, rt)
     run.guard('C13.R5', r5, run, src, g, em, rt)
     run.guard('C13.R6', check_plumbing, run, 'C13.R6', src, em, rt, FUNCS)
+    from . import c03 as _c03
+    from .common import borrow as _b
+    from ..callgraph import get_callgraph as _g
+    run.rule('C13.R8', 'a sub-expression placed in a helper member is referenced by its own number (shared with C03.R1)')
+    _b(run, 'C13.R8', _c03.r1, src, g, em, _g(src))
+    run.floor('C13.R8', 10)
     # a function result depends on its arguments only: no runtime helper keeps results or other state between calls
     from .common import borrow as _borrow
     from . import c08 as _c08
